@@ -204,6 +204,9 @@ func printStats(st *RunStats) {
 	for _, e := range st.Errors {
 		fmt.Println("ERROR:", e)
 	}
+	for _, k := range sortedKeys(st.VioCounts) {
+		fmt.Printf("VIOCOUNT %s = %d\n", k, st.VioCounts[k])
+	}
 	for _, v := range st.Violations {
 		b, _ := json.Marshal(v.Vector)
 		fmt.Printf("VIOLATION-CANDIDATE kind=%s tag=%s id=%s vector=%s\n", v.Kind, v.Tag, v.ID, b)
